@@ -92,6 +92,7 @@ type Path struct {
 	fs        map[string]*memFile
 	markers   map[int]*Term
 	hashPre   map[string]string // hex hash -> preimage (symstr.go)
+	sigs      map[string][2]string // ideal signatures made in this run: sig -> (public key hex, signed hash hex)
 	keyCounter int
 	fpCuts    int
 	regexps   map[*value]*regexp.Regexp
